@@ -74,7 +74,7 @@ impl Part for WirePart {
         "1..2 shards, each with or without a primary, 0..4 replicas on distinct loopback addresses, random or least-outstanding load balancing, healthcheck_delay 0 or 60 s, healthcheck_timeout 150 ms, connect_timeout 200 ms, statement_timeout 0 or 300 ms, ban_time 1 or 60 s; histories of 3..14 steps over {set a replica's fault mode: up / accept-and-close / hang at start-up / hang at query / die on the next message / slow, admin BAN host secs (replica or the primaries' host), UNBAN host, client transaction on a shard with role any|replica|primary (read or write), a statement whose reply stalls after 9 kB, sleep past a short ban}. The ban list is sampled through SHOW BANS before and after every transaction (observation-driven model). Oracle: the primary never appears in SHOW BANS; a replica enters the ban list only if it was faulty or admin-banned and leaves it only by UNBAN, expiry or the all-replicas-of-its-shard-banned rule; no tagged statement reaches a replica that was certainly banned while another replica of the shard could not have been banned; a transaction with a usable, unbanned candidate is served without error; when every replica of the shard is banned the next checkout is served by one of them; a replica that breaks mid-statement costs that one transaction and is then banned; refusals and failovers complete within candidates x timeouts + 2 s, never blocking indefinitely. Non-trivial = a fault active during a transaction that had an alternative candidate".into()
     }
     fn cases(&self, tier: Tier) -> u64 {
-        tier.pick(220, 4_000)
+        tier.pick(880, 8_000)
     }
     fn strategy(&self, _tier: Tier) -> BoxedStrategy<Case> {
         let mode = prop_oneof![3 => Just(Mode::Up), 3 => Just(Mode::Down), 2 => Just(Mode::HangStartup), 2 => Just(Mode::HangQuery), 2 => Just(Mode::CloseOnMessage), 1 => Just(Mode::Slow)];
